@@ -149,6 +149,17 @@ func (f *formatter) Root(n *ast.Root) {
 	f.addIndent()
 
 	f.formatStmts(&n.Stmts)
+
+	// white space and comments before the end of the file are layout like anywhere else
+	if n.EndTkn != nil {
+		var kept []*token.Token
+		for _, ff := range n.EndTkn.FreeFloating {
+			if ff.ID != token.T_WHITESPACE && ff.ID != token.T_COMMENT && ff.ID != token.T_DOC_COMMENT {
+				kept = append(kept, ff)
+			}
+		}
+		n.EndTkn.FreeFloating = kept
+	}
 }
 
 func (f *formatter) Nullable(n *ast.Nullable) {
